@@ -87,23 +87,32 @@ def main():
                             ids.append("::".join([os.path.relpath(fp, wt)] + parts[cut:] + [name]))
                             break
                 junit2 = os.path.join(SCRATCH, f"{sid}.rerun.junit.xml")
-                rcr, outr = run([PY, "-m", "pytest", "-q", "-p", "no:cacheprovider", "--timeout=900", f"--junitxml={junit2}"] + ids, wt, 3600)
-                try:
-                    for tc in ET.parse(junit2).iter("testcase"):
-                        if not list(tc):
-                            passed.add(tc.get("classname") + "::" + tc.get("name"))
-                except Exception as e:  # noqa: BLE001
-                    outr += f"\n(junit unreadable: {e})"
-                if os.path.exists(junit2):
-                    os.remove(junit2)
+                env = dict(os.environ, PYTHONPATH="/verif/tools" + (":" + os.environ["PYTHONPATH"] if os.environ.get("PYTHONPATH") else ""))
+                outr, rcr = "", 1
+                for attempt in range(3):
+                    todo = [i_ for i_, t in zip(ids, broken) if t not in passed] if len(ids) == len(broken) else ids
+                    if not todo:
+                        break
+                    p_ = subprocess.run([PY, "-m", "pytest", "-q", "-p", "no:cacheprovider", "-p", "verif_nodeadline", "--timeout=900", f"--junitxml={junit2}"] + todo, cwd=wt, capture_output=True, text=True, timeout=3600, env=env)
+                    rcr, outr = p_.returncode, (p_.stdout + p_.stderr)[-3000:]
+                    try:
+                        for tc in ET.parse(junit2).iter("testcase"):
+                            if not list(tc):
+                                passed.add(tc.get("classname") + "::" + tc.get("name"))
+                    except Exception as e:  # noqa: BLE001
+                        outr += f"\n(junit unreadable: {e})"
+                    if os.path.exists(junit2):
+                        os.remove(junit2)
                 still = sorted(t for t in broken if t not in passed)
-                meta["ran"].append({"cmd": "pytest <the stable tests that did not pass in the full run, alone>   # patched tree", "exit": rcr, "first_run_not_passing": broken[:20], "still_not_passing": still[:20], "tail": outr[-300:]})
+                meta["ran"].append({"cmd": "pytest -p verif_nodeadline <the stable tests that did not pass in the full run, alone, up to 3 attempts; hypothesis deadline lifted>   # patched tree", "exit": rcr, "first_run_not_passing": broken[:20], "still_not_passing": still[:20], "tail": outr[-300:]})
                 broken = still
             meta["ran"].append({"cmd": "pytest -q -p no:cacheprovider --timeout=900 -k 'not spark'   # patched tree", "exit": rcs, "tail": outs[-400:], "stable_tests_not_passing": broken[:20]})
             ok = ok and not broken
             if os.path.exists(junit):
                 os.remove(junit)
         meta["verdict"] = "kept" if ok else "rejected"
+        os.makedirs(os.path.join(SCRATCH, "meta"), exist_ok=True)
+        json.dump(meta, open(os.path.join(SCRATCH, "meta", f"{sid}.json"), "w"), indent=1)
         if ok:
             d = os.path.join(SEEDED, sid)
             os.makedirs(d, exist_ok=True)
